@@ -126,7 +126,7 @@ def run(tier, seed):
             if c.get("big"):
                 c = dict(c); c["inside"] = False      # large geometries: safety only (no write list attached)
             judge(v, c, o, stats)
-        tested = selftest19(allc, outs)
+        tested = selftest19(allc, outs) if not v.violations else []
         ninside = sum(1 for c in cases if c["inside"])
         cov = {"evaluations": len(outs), "distinct_nontrivial": len({json.dumps({k: c[k] for k in c if k != "writes"}, sort_keys=True) for c in allc}),
                "rule": "ALL geometries enumerated by TLC (Gen_Blit): window %s, rectangle coordinates 0..%d each (in range, out of range, inverted), image sizes 0..%d square = %d cases, %d of them inside the window with their exact write lists; "
